@@ -1,6 +1,6 @@
 \* the code as it is, call level, 3 threads
 CONSTANTS Threads = {t1, t2, t3}  KA = {k1, k2, k3}  KB = {}  Cap = 2  MaxCalls = 2  MaxHeld = 2  Fine = FALSE  InitMayFail = TRUE
-          BudgetPages = 3  Ballast = 30  ClearKeepsPinned = FALSE  ClearCountsUnderLock = FALSE  ReleaseOnInitError = FALSE
+          BudgetPages = 3  Ballast = 30  ClearKeepsPinned = FALSE  ClearCountsUnderLock = TRUE  ReleaseOnInitError = TRUE
 CONSTANT Keys <- KeysAll  ShardOf <- ShardsOneTwo
 SYMMETRY Sym
 SPECIFICATION Spec
